@@ -62,11 +62,18 @@ func (c *decoratorController) callHook(
 		}
 	}
 
+	// Drop null entries; everything downstream dereferences the attachments.
+	attachments := response.Attachments[:0]
 	for _, child := range response.Attachments {
-		if child != nil && child.GetNamespace() == "" {
+		if child == nil {
+			continue
+		}
+		if child.GetNamespace() == "" {
 			child.SetNamespace(parent.GetNamespace())
 		}
+		attachments = append(attachments, child)
 	}
+	response.Attachments = attachments
 
 	return &response, nil
 }
